@@ -941,8 +941,9 @@ theorem C09_combine_all_ignores_any (u : Nat) (t : Ty) (hp : t.parsed = true) (h
     combine .all u [t, .anyT] = t ∧ combine .all u [.anyT, t] = t := by
   cases t <;> simp_all [combine, combineLoop, parseArg, Ty.same, Ty.parsed]
 
-/-- The operators flatten operands of the same kind: `(a | b | …) | (c | d | …)` combines all the operands. -/
-theorem C09_combineBy_flattens (op : Comb) (u i j : Nat) (ls rs : List Ty) :
+/-- (an unfolding of `combineBy`, kept for reference — the content of "same-kind operands flatten" is
+`C09_ops_wf_flat`) `(a | b | …) | (c | d | …)` hands all the operands to `combine`. -/
+theorem C09_combineBy_flattens_unfolds_model (op : Comb) (u i j : Nat) (ls rs : List Ty) :
     combineBy (.comb op ls i) op u (.comb op rs j) false = combine op u (ls ++ rs) ∧
     combineBy (.comb op ls i) op u (.comb op rs j) true = combine op u (rs ++ ls) := by
   simp [combineBy, Ty.combinator, Ty.args, Ty.isLogical]
